@@ -4,8 +4,9 @@ import Driver.Proto
 /-
 Streams of C07.
   c07.handover  S:<kind>  op op …     op = R:<kind> (reload) | T:<kind> (reload with a request in flight on address 1)
+                                         | L:<kind> (reload while a request on address 1 outlives the graceful period)
      kinds: addresses served, e.g. 1, 12, 2, 21; suffix x = the configuration fails during setup; 3 = an address in use
-     out = step|step|…   step = <res>;fd=<f1>.<f2>;sk=<s1>.<s2>;p=<m1>.<m2>[;mid=<m>;str=<m>]
+     out = step|step|…   step = <res>;fd=<f1>.<f2>;sk=<s1>.<s2>;p=<m1>.<m2>;ni=<instances>[;mid=<m>][;str=<m>]
   c07.storm     recorded trace of a reload storm under concurrent clients (see harness/streams/c07.go)
 -/
 namespace Driver.C07
@@ -24,13 +25,13 @@ def parseKind (s : String) : Option Cfg :=
 def parseHOp (s : String) : Option HOp :=
   if s.startsWith "R:" then (parseKind (s.drop 2).toString).map .reload
   else if s.startsWith "T:" then (parseKind (s.drop 2).toString).map .straddle
+  else if s.startsWith "L:" then (parseKind (s.drop 2).toString).map .longflight
   else none
 
 def showObs (o : HObs) : String :=
-  let base := s!"{o.res};fd={o.fd1}.{o.fd2};sk={o.sk1}.{o.sk2};p={o.p1}.{o.p2}"
-  match o.mid, o.str with
-  | some m, some s => s!"{base};mid={m};str={s}"
-  | _, _ => base
+  let base := s!"{o.res};fd={o.fd1}.{o.fd2};sk={o.sk1}.{o.sk2};p={o.p1}.{o.p2};ni={o.ni}"
+  let base := match o.mid with | some m => s!"{base};mid={m}" | none => base
+  match o.str with | some s => s!"{base};str={s}" | none => base
 
 def parseCase : List String → Option (Cfg × List HOp)
   | [] => none
@@ -55,14 +56,16 @@ def pair (s : String) : Option (String × String) :=
 
 def parseObs (s : String) : Option HObs :=
   match s.splitOn ";" with
-  | r :: fd :: sk :: p :: rest => do
+  | r :: fd :: sk :: p :: ni :: rest => do
     let (f1, f2) ← pair (← stripPrefix "fd=" fd)
     let (s1, s2) ← pair (← stripPrefix "sk=" sk)
     let (p1, p2) ← pair (← stripPrefix "p=" p)
+    let ni ← (← stripPrefix "ni=" ni).toNat?
     let base : HObs := { res := r, fd1 := ← f1.toNat?, fd2 := ← f2.toNat?, sk1 := ← s1.toNat?, sk2 := ← s2.toNat?,
-                         p1 := p1, p2 := p2, mid := none, str := none }
+                         p1 := p1, p2 := p2, ni := ni, mid := none, str := none }
     match rest with
     | [] => pure base
+    | [t] => pure { base with str := some (← stripPrefix "str=" t) }
     | [m, t] => pure { base with mid := some (← stripPrefix "mid=" m), str := some (← stripPrefix "str=" t) }
     | _ => none
   | _ => none
